@@ -328,31 +328,18 @@ def _r3(chk, repo):
                         ok = True
         chk.add("C03-R3", f"{model.qual}._check_gradient_can_be_computed/{key}", ok, site(repo, cfn),
                 f"refusal on `{key}` present", f"the refusal for `{key}` is missing from _check_gradient_can_be_computed", cfn)
-    # geometry.gradient result is parameters: grad_is_par = True on that branch and passed to _2par
-    gv = canon_fn(repo, model, gfn, 1)
-    exg = Expander(gv)
-    gg = exg.cfg
-    HAS = "hasattr(self.domain_geometry, 'gradient')"
-    app = [n for n in gg.nodes if n.kind == "stmt" and isinstance(n.ast, ast.Assign) and isinstance(n.ast.value, ast.Call)
-           and call_name(n.ast.value) == "self.domain_geometry.gradient" and len(n.ast.value.args) == 2]
-    conv = [(n, c) for n in gg.nodes if n.ast is not None and n.kind in ("stmt", "return") for c in ast.walk(n.ast)
-            if isinstance(c, ast.Call) and call_name(c) == "self._2par" and any(k.arg == "is_par" for k in c.keywords)]
-    gname = path_of(app[0].ast.targets[0]) if app else None
-    conv = [(n, c) for n, c in conv if c.args and path_of(c.args[0]) == gname]
-    rec = bool(app) and bool(conv)
-    ok = rec and len(app) == 1 and any(HAS in unparse(exg.expand(t.ast, t)) and lab == "T" for t, lab in gg.guards_of(app[0]))
-    if ok:
-        # the flag handed to _2par says "parameters" exactly on the paths through the geometry's gradient
-        n2, c2 = conv[0]
-        flag = [k.value for k in c2.keywords if k.arg == "is_par"][0]
-        ftxt = unparse(exg.expand(flag, n2))
-        defs = exg.defs(n2, flag.id) if isinstance(flag, ast.Name) else []
-        dvals = sorted({unparse(rhs) for d, rhs in defs if rhs is not None})
-        true_defs = [d for d, rhs in defs if rhs is not None and unparse(rhs) == "True"]
-        ok = ftxt == HAS or (dvals == ["False", "True"] and all(any(HAS in unparse(exg.expand(t.ast, t)) and lab == "T" for t, lab in gg.guards_of(d)) for d in true_defs))
-    chk.decide("C03-R3", f"{model.qual}.gradient/geometry-chain-rule", ok, rec, site(repo, gfn),
-            "domain_geometry.gradient(grad, wrt_par) result flagged as parameters (not converted by fun2par again)",
-            "the geometry's gradient is not applied to the raw gradient at the parameter point, or its result is converted again", gfn)
+    # chain rule through the geometry: on the path where the domain geometry has a gradient, the value handed to the final conversion is
+    # geometry.gradient(<raw gradient>, <wrt as parameters>) flagged as parameters; otherwise the raw gradient flagged as function values
+    from .common import model_gradient_table, model_gradient_expected
+    tb, kc = model_gradient_table(repo, model, gfn)
+    if tb is None:
+        chk.unknown("C03-R3", f"{model.qual}.gradient/geometry-chain-rule", site(repo, gfn), f"not decidable: {kc}", gfn)
+    else:
+        exp = model_gradient_expected(repo, model, gfn, kc)
+        bad = [f"[domain geometry has a gradient={k}] returns `{tb[k]}`, expected `{exp[k]}`" for k in (True, False) if tb[k] != exp[k]]
+        chk.add("C03-R3", f"{model.qual}.gradient/geometry-chain-rule", not bad, site(repo, gfn),
+                "domain_geometry.gradient(raw gradient, wrt as parameters) flagged as parameters; raw gradient flagged as function values otherwise",
+                "the geometry's gradient is not applied to the raw gradient at the parameter point, or its result is converted again: " + "; ".join(bad)[:900], gfn)
     # Posterior: sum rule at one argument
     post = repo.cls("cuqi/distribution/_posterior.py:Posterior")
     pg = repo.method(post, "_gradient")[1]
